@@ -133,6 +133,42 @@ static int section_depth(const Section &s) { int d = 1; Section p = s.parent(); 
 static int source_depth(const Block &b, const Source &s) { (void) b; int d = 1; Source p = s.parentSource(); while (p && d < 10) { d++; p = p.parentSource(); } return d; }
 
 
+// A new holder entity whose name is chosen so that the stored path of its *link* to an existing entity (the later victim of a delete)
+// is exactly T characters long, T next to a power of two: "/data/<block>/tags/<name>/references/<array id>" and the like.  Deleting
+// an entity has to find and remove every such path; path lengths are where fixed-size buffers meet user input.
+// a[0] block, a[1] victim slot, a[2] link kind, a[3] target length selector
+int World::mk_fitted(const Op &op) {
+    const int *a = op.a;
+    Block b = blk(a[0]); if (!b) return 2;
+    int kind = ((unsigned) a[2]) % 12;
+    int T = (1 << (5 + ((unsigned) a[3]) % 6)) + (int) ((((unsigned) a[3]) / 6) % 3) - 1;
+    static const struct { const char *container; int suffix; } L[12] = {
+        {"tags", 12 + 36}, {"tags", 10 + 36 + 5}, {"multi_tags", 10}, {"multi_tags", 12 + 36}, {"groups", 13 + 36}, {"groups", 12 + 36},
+        {"groups", 6 + 36}, {"groups", 12 + 36}, {"tags", 9 + 36}, {"data_arrays", 9}, {"", 5}, {"data_arrays", 24}};
+    std::string container = kind == 10 ? std::string("/metadata") : "/data/" + b.name() + "/" + L[kind].container;
+    int len = T - (int) container.size() - 1 - L[kind].suffix;
+    arg_class = "link-kind=" + std::to_string(kind) + ",path=" + std::to_string(T);
+    if (len < 1) return 2;
+    std::string name = long_name(len);
+    cnt.inc("names.link_path_fitted");
+    try {
+        switch (kind) {
+        case 0: { DataArray x = arr_at(a[0], a[1]); if (!x || b.hasTag(name)) return 2; Tag t = b.createTag(name, "t", {0.0}); t.addReference(x); return 0; }
+        case 1: { DataArray x = arr_at(a[0], a[1]); if (!x || b.hasTag(name)) return 2; Tag t = b.createTag(name, "t", {0.0}); t.createFeature(x, LinkType::Untagged); return 0; }
+        case 2: { DataArray x = arr_at(a[0], a[1]); if (!x || b.hasMultiTag(name)) return 2; b.createMultiTag(name, "t", x); return 0; }
+        case 3: { DataArray x = arr_at(a[0], a[1]); if (!x || b.hasMultiTag(name)) return 2; MultiTag t = b.createMultiTag(name, "t", x); t.addReference(x); return 0; }
+        case 4: { DataArray x = arr_at(a[0], a[1]); if (!x || b.hasGroup(name)) return 2; Group g = b.createGroup(name, "t"); g.addDataArray(x); return 0; }
+        case 5: { DataFrame x = frame_at(a[0], a[1]); if (!x || b.hasGroup(name)) return 2; Group g = b.createGroup(name, "t"); g.addDataFrame(x); return 0; }
+        case 6: { Tag x = tag_at(a[0], a[1]); if (!x || b.hasGroup(name)) return 2; Group g = b.createGroup(name, "t"); g.addTag(x); return 0; }
+        case 7: { MultiTag x = mtag_at(a[0], a[1]); if (!x || b.hasGroup(name)) return 2; Group g = b.createGroup(name, "t"); g.addMultiTag(x); return 0; }
+        case 8: { Source x = source_at(a[0], a[1]); if (!x || b.hasTag(name)) return 2; Tag t = b.createTag(name, "t", {0.0}); t.addSource(x); return 0; }
+        case 9: { Section x = section_at(a[1]); if (!x || b.hasDataArray(name)) return 2; DataArray d = b.createDataArray(name, "t", DataType::Double, NDSize({2})); d.metadata(x); return 0; }
+        case 10: { Section x = section_at(a[1]); if (!x || f.hasSection(name)) return 2; Section s = f.createSection(name, "t"); s.link(x); return 0; }
+        default: { DataFrame x = frame_at(a[0], a[1]); if (!x || b.hasDataArray(name)) return 2; DataArray d = b.createDataArray(name, "t", DataType::Double, NDSize({2})); d.appendDataFrameDimension(x); return 0; }
+        }
+    } catch (const std::exception &) { return 1; }
+}
+
 // A linked structure built in one step (every call on its own: a step that is refused - the name exists, the file is ReadOnly - is
 // skipped, existing entities of the same name are reused): a source tree three levels deep with several children per level, a section
 // tree with properties and a link, data arrays with dimension descriptors, a tag and a multi-tag with references, features, positions
@@ -654,6 +690,7 @@ int World::exec_entity(const Op &op) {
     }
     case OP_force_id: TRY(f.forceId());
     case OP_mk_graph: return mk_graph(op);
+    case OP_mk_fitted: return mk_fitted(op);
     default: return 2;
     }
 }
